@@ -86,7 +86,7 @@ def make_dims(y, extra):
     tdim = Dimension(name="Time", letter="t", items=list(y))
     dl = [tdim]
     for l, k in extra.items():
-        dl.append(Dimension(name={"r": "Region", "p": "Product", "q": "Quality"}[l], letter=l, items=[f"{l}{i + 1}" for i in range(k)]))
+        dl.append(Dimension(name={"r": "Region", "p": "Product", "q": "Quality", "c": "Commodity", "i": "Item"}[l], letter=l, items=[f"{l}{i + 1}" for i in range(k)]))
     return DimensionSet(dim_list=dl)
 
 
